@@ -84,10 +84,8 @@ def programs(tier):
                 bodies += [("it<0", lambda s: _fe_it(s, lambda it: it < 0), lambda v: all(x < 0 for x in v["l"])),
                            ("sum==-3", lambda s: s.l.sum == -3, lambda v: sum(v["l"]) == -3)]
             for bname, bld, pred in bodies:
-                if sz == 0 and bname in ("n in l", "sum==c", "sum>5", "product==c", "sum==-3"):
-                    # membership in an empty list has no meaning given by the statement; a statement over
-                    # an empty list alone mentions no field at all (no counterpart in a class constraint)
-                    continue
+                if sz == 0 and bname in ("product==c", "product>n"):
+                    continue       # the product of no elements is not defined by the statement
                 if signed and bname in ("n in l", "n notin l", "product>n", "sum<n", "it!=n"):
                     continue       # n is unsigned: a mixed-sign comparison, judged by C01 only where both readings agree
                 add("fixed%d/%s/%s" % (sz, kind, bname), _mk_fixed(T, sz, bld), pred, fixed=sz, kind=kind)
